@@ -30,6 +30,12 @@ CONSTANTS
 
 FOREVER == 16777215
 
+\* configuration record: configs write  [field |-> value, ...] @@ CfgDefault
+CfgDefault == [ maxId      |-> 3,       \* session ids wrap after maxId (65535 in the code; small in interleaving configs)
+                seeReboot  |-> FALSE,   \* reboot_detected calls on the three components are observable
+                timerPhase |-> FALSE,   \* environment inputs may also run among the due timers of an iteration
+                watch0     |-> <<>> ]   \* initial listener registrations
+
 \* all deviation switches off = the intended design; AsShipped = the pinned commit 06eaa50
 AllOff == [ DeferExpiryNotify   |-> FALSE,  \* D1  TimedStore._expired defers its callback
             DeferStopAllNotify  |-> FALSE,  \* D2  stop_all_for_address defers its callbacks
@@ -38,7 +44,10 @@ AllOff == [ DeferExpiryNotify   |-> FALSE,  \* D1  TimedStore._expired defers it
             DeferWatchReplay    |-> FALSE,  \* D11 watch/unwatch replay deferred
             DeferHandleOffer    |-> FALSE,  \* D13 offers deferred (harmful once D3 is repaired)
             StaleTimerOnRefresh |-> FALSE,  \* spec mutant: refresh forgets to cancel the old timer
-            ForeverGetsTimer    |-> FALSE ] \* spec mutant: the infinite TTL arms a timer
+            ForeverGetsTimer    |-> FALSE,  \* spec mutant: the infinite TTL arms a timer
+            RebootNeedsSmallerId |-> FALSE, \* spec mutant: '>' instead of '>=' in the reboot rule
+            WrapToZero          |-> FALSE,  \* spec mutant: the counter wraps to 0 instead of 1
+            EmptySendTakesId    |-> FALSE ] \* spec mutant: an empty send consumes a session id
 AsShipped == [AllOff EXCEPT !.DeferExpiryNotify = TRUE, !.DeferStopAllNotify = TRUE, !.DeferRebootFanout = TRUE,
                             !.IgnoreWhenUnwatched = TRUE, !.DeferWatchReplay = TRUE, !.DeferHandleOffer = TRUE]
 
@@ -77,8 +86,20 @@ IsIdle(s) == s.ready = <<>> /\ s.todo = 0 /\ Due(s) = {}
 \* s.sessIn : [<<sender, multicast>> -> <<flag, session id>>]
 RebootSeen(s, src, mc, rb, sid) ==
   LET k == <<src, mc>> IN
-  k \in DOMAIN s.sessIn /\ rb /\ (~s.sessIn[k][1] \/ (s.sessIn[k][2] > 0 /\ s.sessIn[k][2] >= sid))
+  k \in DOMAIN s.sessIn /\ rb /\ (~s.sessIn[k][1] \/ (s.sessIn[k][2] > 0 /\
+      (IF Sw.RebootNeedsSmallerId THEN s.sessIn[k][2] > sid ELSE s.sessIn[k][2] >= sid)))
 SessRecord(s, src, mc, rb, sid) == [s EXCEPT !.sessIn = Put(@, <<src, mc>>, <<rb, sid>>)]
+
+\* s.sessOut : [destination -> <<flag, next id>>]   (assign_outgoing: 1..maxId, flag cleared at the wrap)
+AssignOut(s, dst) ==
+  LET cur == Get(s.sessOut, dst, <<TRUE, 1>>)
+      nxt == IF cur[2] >= Cfg.maxId THEN <<FALSE, IF Sw.WrapToZero THEN 0 ELSE 1>> ELSE <<cur[1], cur[2] + 1>>
+  IN <<[s EXCEPT !.sessOut = Put(@, dst, nxt)], cur>>
+\* ServiceDiscoveryProtocol.send_sd: nothing at all for an empty entry list (C08)
+SendSD(s, dst, es) ==
+  IF es = <<>> THEN (IF Sw.EmptySendTakesId THEN AssignOut(s, dst)[1] ELSE s)
+  ELSE LET r == AssignOut(s, dst)
+       IN Out(r[1], [k |-> "out", op |-> "tx", dst |-> dst, sid |-> r[2][2], rb |-> r[2][1], uc |-> TRUE, es |-> es])
 
 -----------------------------------------------------------------------------
 (* ----------------------- discovery: registrations ------------------------ *)
@@ -181,10 +202,18 @@ Unwatch(s, l, f) ==
 
 -----------------------------------------------------------------------------
 (* ----------------- ServiceDiscoveryProtocol: receive path ---------------- *)
-RebootFanout(s, src) ==   \* reboot_detected: subscriber (no-op), discovery, announcer
+\* reboot_detected: subscriber (no-op), discovery, announcer -- each exactly once per detection.
+\* With Cfg.seeReboot the three calls are observable (the harness wraps the components).
+RebootObs(s, comp, src) ==
+  IF Cfg.seeReboot THEN Out(s, [k |-> "out", op |-> "reboot", comp |-> comp, a |-> src]) ELSE s
+RebootDisc(s, src) == FoundStopAddr(RebootObs(s, "disc", src), src)
+RebootSub(s, src) == RebootObs(s, "sub", src)
+RebootAnn(s, src) == RebootObs(s, "ann", src)
+RebootFanout(s, src) ==
   IF Sw.DeferRebootFanout
-  THEN CallSoon(s, [kind |-> "reboot_disc", a |-> src])
-  ELSE FoundStopAddr(s, src)
+  THEN CallSoon(CallSoon(CallSoon(s, [kind |-> "reboot_sub", a |-> src]), [kind |-> "reboot_disc", a |-> src]),
+                [kind |-> "reboot_ann", a |-> src])
+  ELSE RebootAnn(RebootDisc(RebootSub(s, src), src), src)
 
 RECURSIVE DispatchEntries(_, _, _, _)
 DispatchEntries(s, src, mc, es) ==
@@ -214,6 +243,7 @@ Input(s, e) ==      \* an environment input, delivered as an I/O callback
     [] e.op = "watch"    -> Watch(s0, e.lst, e.flt)
     [] e.op = "unwatch"  -> Unwatch(s0, e.lst, e.flt)
     [] e.op = "connlost" -> ConnLost(s0)
+    [] e.op = "send"     -> SendSD(s0, e.dst, e.es)          \* public send_sd (C08)
     \* a bare TimedStore driven through its public methods (C09)
     [] e.op = "ts_refresh"  -> TSRefresh(s0, "ts", e.a, e.key, e.ttl)
     [] e.op = "ts_stop"     -> TSStop(s0, "ts", e.a, e.key)
@@ -227,7 +257,9 @@ Effect(s, c) ==
     [] c.kind = "expired"        -> TSExpired(s, c.store, c.a, c.key)
     [] c.kind = "notify_gone"    -> TSGone(s, c.store, c.a, c.key)
     [] c.kind = "emit"           -> Out(s, c.e)
-    [] c.kind = "reboot_disc"    -> FoundStopAddr(s, c.a)
+    [] c.kind = "reboot_disc"    -> RebootDisc(s, c.a)
+    [] c.kind = "reboot_sub"     -> RebootSub(s, c.a)
+    [] c.kind = "reboot_ann"     -> RebootAnn(s, c.a)
     [] c.kind = "connlost_disc"  -> FoundStopAll(s)
     [] c.kind = "cancelled"      -> s
 
@@ -237,7 +269,7 @@ vars == <<s>>
 
 Init ==
   s = [ ready |-> <<>>, todo |-> 0, timers |-> {}, outs |-> <<>>, ev |-> 0, idle |-> 0,
-        sessIn |-> <<>>, peer |-> <<>>, watch |-> Cfg.watch0, wkeys |-> UNION Range(Cfg.watch0) \ {"ALL"},
+        sessIn |-> <<>>, sessOut |-> <<>>, peer |-> <<>>, watch |-> Cfg.watch0, wkeys |-> UNION Range(Cfg.watch0) \ {"ALL"},
         store |-> [found |-> {}, ts |-> {}] ]
 
 \* inputs applicable now (a listener registers under one filter at a time: DESIGN §9)
@@ -250,7 +282,7 @@ Applicable(st, e) ==
 \* at Cfg.maxId like a real sender (C08); an input with reboot = TRUE is the first message of a
 \* new incarnation of that peer.  Inputs other than rx are passed through.
 Concretise(st, e) ==
-  IF e.op # "rx" THEN <<st, e>>
+  IF e.op # "rx" \/ "sid" \in DOMAIN e THEN <<st, e>>     \* (an rx input may also prescribe sid / rb itself)
   ELSE LET k   == <<e.src, e.mc>>
            cur == IF e.reboot \/ k \notin DOMAIN st.peer THEN <<TRUE, 1>> ELSE st.peer[k]
            nxt == IF cur[2] >= Cfg.maxId THEN <<FALSE, 1>> ELSE <<cur[1], cur[2] + 1>>
